@@ -423,10 +423,35 @@ func checkStart(c *startCase) string {
 	return ""
 }
 
+// startHistory: a first call that passes the %! check and then ends in
+// whatever way, followed by calls without %!.
+type startHistory struct {
+	First  string   `json:"first"`
+	MaxOps int      `json:"max_ops"`
+	Later  []string `json:"later"`
+}
+
+func checkStartHistory(c *startHistory) string {
+	intp := postscript.NewInterpreter()
+	intp.CheckStart = true
+	intp.MaxOps = c.MaxOps
+	first := intp.ExecuteString(c.First)
+	if first == postscript.ErrNoPostScript {
+		return fmt.Sprintf("first call %q (begins with %%!) rejected with ErrNoPostScript", c.First)
+	}
+	for i, text := range c.Later {
+		intp.MaxOps = 0
+		if err := intp.ExecuteString(text); err == postscript.ErrNoPostScript {
+			return fmt.Sprintf("the %%! check was repeated: call %d (%q) after the first call %q (which passed the check and ended with err=%q) gives ErrNoPostScript", i+2, text, c.First, pscanon.ErrorName(first))
+		}
+	}
+	return ""
+}
+
 func TestP3Start(t *testing.T) {
 	rec := ev.New("C11", "start")
 	defer rec.Finish(t)
-	rec.Rule("all 65,536 two-byte prefixes, the empty input and all 256 one-byte inputs, followed by a line break and a program with visible effect, with CheckStart = true: anything but %! must give ErrNoPostScript with NumOps == 0, empty stack and empty userdict; %! must run the program, and a second Execute call without %! on the same interpreter must be accepted. Every prefix counts once.")
+	rec.Rule("all 65,536 two-byte prefixes, the empty input and all 256 one-byte inputs, followed by a line break and a program with visible effect, with CheckStart = true: anything but %! must give ErrNoPostScript with NumOps == 0, empty stack and empty userdict; %! must run the program, and a second Execute call without %! on the same interpreter must be accepted. Every prefix counts once. Plus call histories on one interpreter: a first call that begins with %! and then succeeds, fails with a PostScript error, is stopped, exceeds a budget of 1, 3 or 1000 operations, or ends inside an unfinished procedure or string, followed by one or two calls without %!, none of which may be answered with ErrNoPostScript (once passed, the check is not repeated).")
 	k := 0
 	try := func(p []byte) {
 		k++
@@ -447,6 +472,26 @@ func TestP3Start(t *testing.T) {
 			try([]byte{byte(a), byte(b)})
 		}
 	}
+	// histories: the first call passes the check and then fails or ends early
+	firsts := []string{"%!\n1 2 add", "%!\npop", "%!\n(abc) 7 get", "%!\nnosuchname", "%!\n1 2 stop 3", "%!\n{ 1 2", "%!\n1 exit", "%!", "%!\n", "%!PS-Adobe-3.0\n%%Title: x\n", "%!\n( unterminated", "%!\n1 2 3 4 5 6 7 8 9", "%!\n{1} loop"}
+	laters := [][]string{{"1 2 add"}, {"(no header) pop", "/x 1 def"}, {"\n\n 7"}, {"% comment\n 7"}, {"} pop 1"}}
+	for _, f := range firsts {
+		for _, budget := range []int{0, 1, 3, 1000} {
+			for _, l := range laters {
+				k++
+				if !ev.Mine(k) {
+					continue
+				}
+				c := &startHistory{First: f, MaxOps: budget, Later: l}
+				rec.Eval(1)
+				rec.Class("history")
+				rec.NonTrivial(fmt.Sprint("history", f, budget, l))
+				if msg := ev.Safe(func() string { return checkStartHistory(c) }); msg != "" {
+					rec.Violation(false, msg, map[string]any{"start_history": c})
+				}
+			}
+		}
+	}
 	rec.Exhaustive()
 	rec.Sample(map[string]any{"prefix": "%!", "want": "accepted"})
 	rec.Sample(map[string]any{"prefix": "%%", "want": "ErrNoPostScript, nothing executed"})
@@ -461,9 +506,10 @@ func TestReplay(t *testing.T) {
 		t.Skip("no VERIF_REPLAY")
 	}
 	var c struct {
-		Budget *budgetCase `json:"budget"`
-		Limit  *limitCase  `json:"limit"`
-		Start  *startCase  `json:"start"`
+		Budget *budgetCase   `json:"budget"`
+		Limit  *limitCase    `json:"limit"`
+		Start  *startCase    `json:"start"`
+		Hist   *startHistory `json:"start_history"`
 	}
 	if err := json.Unmarshal(rc.Case, &c); err != nil {
 		t.Fatal(err)
@@ -478,6 +524,8 @@ func TestReplay(t *testing.T) {
 		msg = judge(*c.Limit, out[0])
 	case c.Start != nil:
 		msg = ev.Safe(func() string { return checkStart(c.Start) })
+	case c.Hist != nil:
+		msg = ev.Safe(func() string { return checkStartHistory(c.Hist) })
 	}
 	if msg != "" {
 		t.Fatalf("%s", msg)
